@@ -17,6 +17,8 @@ pub enum Exp {
     SqProd(i64, Vec<(i64, i64)>),
     /// b_n/b_d + prod n_i/d_i
     Aff((i64, i64), Vec<(i64, i64)>),
+    /// b_n/b_d + s * sqrt(q_n/q_d)
+    AffSq((i64, i64), i64, (i64, i64)),
 }
 
 impl Exp {
@@ -33,6 +35,7 @@ impl Exp {
             6 => Exp::Exact(int(1), int(2)),
             7 => Exp::SqProd(int(1), (2..a.len()).step_by(2).map(|i| (int(i), int(i + 1))).collect()),
             8 => Exp::Aff((int(1), int(2)), (3..a.len()).step_by(2).map(|i| (int(i), int(i + 1))).collect()),
+            9 => Exp::AffSq((int(1), int(2)), int(3), (int(4), int(5))),
             k => tool_error(&format!("unknown expectation kind {k}")),
         }
     }
@@ -57,6 +60,7 @@ impl Exp {
             Exp::Sq(s, n, d) => Some(*s as f64 * (*n as f64 / *d as f64).sqrt()),
             Exp::Int(v) => Some(*v as f64),
             Exp::SqProd(s, fs) => Some(*s as f64 * fs.iter().map(|(n, d)| *n as f64 / *d as f64).product::<f64>().sqrt()),
+            Exp::AffSq(b, s, q) => Some(b.0 as f64 / b.1 as f64 + *s as f64 * (q.0 as f64 / q.1 as f64).sqrt()),
             Exp::Aff(b, fs) => Some(b.0 as f64 / b.1 as f64 + fs.iter().map(|(n, d)| *n as f64 / *d as f64).product::<f64>()),
             _ => None,
         }
@@ -215,7 +219,7 @@ pub fn satisfies(exp: &Exp, obs: Obs, tol: f64, null_as_zero: bool) -> Result<f6
             Obs::F(g) if g == *v as f64 => Ok(0.0),
             _ => fail(),
         },
-        Exp::Exact(..) | Exp::Q(..) | Exp::Sq(..) | Exp::SqProd(..) | Exp::Aff(..) => {
+        Exp::Exact(..) | Exp::Q(..) | Exp::Sq(..) | Exp::SqProd(..) | Exp::Aff(..) | Exp::AffSq(..) => {
             let want = exp.value().unwrap();
             let t = if matches!(exp, Exp::Exact(..)) { exact_tol } else { tol };
             match obs {
